@@ -156,7 +156,7 @@ Print Assumptions C12_sat_answers.
 Theorem C12_core_answers : forall loadable (compile : clause_set -> nat -> circuit),
   (forall cs n, loadable cs n = true ->
      check_wf (compile cs n) n = true /\ Models (compile cs n) n = cs_models cs n) ->
-  forall d m s l, R loadable d m -> no_dead (live_circuit compile d) = true ->
+  forall d m s l, R loadable d m -> 0 < cnf_count (m_cs m) (m_n m) [] ->
   (In l (snd (core_dead_with_assumptions (build (live_circuit compile d) (m_n m)) [] s)) <->
    forall mo, In mo (cs_models (m_cs m) (m_n m)) -> In l mo).
 Proof. exact core_answers. Qed.
